@@ -1,6 +1,8 @@
 import Hgxv.Model.Wire
 import Hgxv.Model.C01
 import Hgxv.Model.C01X
+import Hgxv.Model.C01Ext
+import Hgxv.Model.C01Lcc
 /-! Line protocol for C01.  The driver runs the concrete whole-object model (`C01.fstep`, which runs `C01.apply` on the
 tables for every base operation, `Hgxv/Model/C01X.lean`) and the abstract spec (`C01.FSpec.step`) in lock step on the
 same commands.
@@ -17,6 +19,16 @@ same commands.
                                               tables and takes the node / hyperedge tables of slot i (adoption of an
                                               object that another part of the library changed in place)
   extra ops `setinc <edge> <node> <meta>`, `addempty <name> <meta>`; extra queries `incmeta <edge> <node>`, `allincmeta`
+
+  `ctor i w <hm> <nodemeta|-> <edges|-> <weights|~> <metas|~>` -> `ok|rej`  ONE constructor call (`C01.construct`; the abstract
+                                              `Spec.construct` beside it: `SPECDIFF` when they differ); `rej` keeps slot i
+  `x i hashing|mapping|indexof n|adjkeys|roundtrip` -> `expose_attributes_for_hashing()` (`rej` = raises), the classes of
+                                              `get_mapping()`, `transform([n])`, `get_adj_dict()` read through
+                                              `_reverse_edge_list`, `populate (exposeTables s) == s`; the first four are
+                                              also answered from the abstract hypergraph (`SPECDIFF`)
+
+  `lcc i j <order|~> <size|~>`    -> `ok|rej`  slot j := `subhypergraph_largest_component(size, order)` of slot i (`C01.subLcc`,
+                                              `Spec.subLcc` beside it; `SPECDIFF` when outcome or abstraction differ)
 
 Encodings: option `~` = None; meta `k:v,k:v` (`-` empty; `_` empty inside a list); nat list `1,2` (`-`);
 list of lists `1,2;3` (`-`, inner empty `_`); filter = three tokens `order size upto`. -/
@@ -143,6 +155,31 @@ def showOut : Out → String
   | .ok => "ok"
   | .rej => "rej"
 
+def showHash (v : HashView) : String :=
+  showBool v.weighted ++ "|" ++ showMeta "-" v.hmeta ++ "|" ++
+  showList ";" "-" (fun (p : Edge × (Int × Meta)) => showEdge p.1 ++ "=" ++ toString p.2.1 ++ "=" ++ showMeta "_" p.2.2) v.edges
+  ++ "|" ++ showList ";" "-" (fun (p : Node × Meta) => toString p.1 ++ "=" ++ showMeta "_" p.2) v.nodes
+
+def showAdjKeys (l : List (Node × List (Option Edge))) : String :=
+  showList ";" "-" (fun (p : Node × List (Option Edge)) =>
+    toString p.1 ++ "=" ++ showList "/" "_" (fun (o : Option Edge) => match o with | some e => showEdge e | none => "?") p.2) l
+
+def xanswer (c : Store) (a : Spec) : List String → Option (String × String)
+  | ["hashing"] => some (match hashView c with | some v => showHash v | none => "rej", showHash (Spec.hashView a))
+  | ["mapping"] => some (showNats (mapping c), showNats (Spec.mapping a))
+  | ["indexof", n] => n.toNat?.map fun n =>
+      let f := fun (l : List Node) => match C03.indexOf? l n with | some i => toString i | none => "rej"
+      (f (mapping c), f (Spec.mapping a))
+  | ["adjkeys"] => some (showAdjKeys (adjKeys c), showAdjKeys (Spec.adjKeys a))
+  | ["roundtrip"] => some (showBool (decide (populate (exposeTables c) = c)), "1")
+  | _ => none
+
+def ctor? : List String → Option CtorArgs
+  | [w, hm, nm, es, ws, mds] => do
+    pure { weighted := (← bool? w), hm := (← meta? "-" hm), nodeMeta := (← nodeMetas? nm), edges := (← natss? es),
+           weights := (← optOf ints? ws), emetas := (← optOf metas? mds) }
+  | _ => none
+
 structure St where
   c : FState := []
   a : FSState := []
@@ -186,6 +223,44 @@ def stepLine (s : St) : List String → St × String
         ({ c := s.c.set j { cj with base := ci.base }, a := s.a.set j { aj with base := ai.base } }, "ok")
       | _, _, _, _ => (s, "bad-op")
     | _, _ => (s, "bad-op")
+  | "ctor" :: i :: rest =>
+    match i.toNat?, ctor? rest with
+    | some i, some a =>
+      if i < s.c.length ∧ i < s.a.length then
+        match construct a, Spec.construct a with
+        | some c, some sp =>
+          if abs c = sp then ({ c := s.c.set i { base := c }, a := s.a.set i { base := sp } }, "ok")
+          else (s, "SPECDIFF abs")
+        | none, none => (s, "rej")
+        | some _, none => (s, "SPECDIFF ok | rej")
+        | none, some _ => (s, "SPECDIFF rej | ok")
+      else (s, "bad-op")
+    | _, _ => (s, "bad-op")
+  | "x" :: i :: rest =>
+    match i.toNat? with
+    | some i =>
+      match s.c[i]?, s.a[i]? with
+      | some c, some a =>
+        match xanswer c.base a.base rest with
+        | some (x, y) => (s, if x = y then x else "SPECDIFF " ++ x ++ " | " ++ y)
+        | none => (s, "bad-op")
+      | _, _ => (s, "bad-op")
+    | none => (s, "bad-op")
+  | ["lcc", i, j, o, k] =>
+    match i.toNat?, j.toNat?, optOf int? o, optOf int? k with
+    | some i, some j, some o, some k =>
+      match s.c[i]?, s.a[i]? with
+      | some ci, some ai =>
+        if j < s.c.length ∧ j < s.a.length then
+          let rc := subLcc ci.base o k
+          let ra := Spec.subLcc ai.base o k
+          if rc.2 ≠ ra.2 then (s, "SPECDIFF " ++ showOut rc.2 ++ " | " ++ showOut ra.2)
+          else if rc.2 = .rej then (s, "rej")
+          else if abs rc.1 = ra.1 then ({ c := s.c.set j { base := rc.1 }, a := s.a.set j { base := ra.1 } }, "ok")
+          else (s, "SPECDIFF abs")
+        else (s, "bad-op")
+      | _, _ => (s, "bad-op")
+    | _, _, _, _ => (s, "bad-op")
   | ["chk", i] =>
     match i.toNat? with
     | some i => (s, match s.c[i]?, s.a[i]? with
